@@ -170,6 +170,14 @@ class Gen:
         k = self.r.random()
         if k < 0.004:
             return {"k": "expr", "e": self.call(2, lens, malformed=True)}
+        if k < 0.03:
+            # the holder gets a new array (a literal, or its own sorted copy): later calls must act on the new one
+            name = self.r.choice(self.names)
+            if self.r.random() < 0.5:
+                e = ("call", name, "sort", [])
+            else:
+                e = ("lit", [V.value(self.r, 1, True, 0.15) for _ in range(self.r.randint(0, 4))])
+            return {"k": "rebind", "name": name, "e": e}
         if k < 0.70:
             d = self.r.choice([1, 1, 2, 2, 3])
             return {"k": "expr", "e": self.call(d, lens)}
@@ -230,6 +238,9 @@ def build_case(rng, cid, nsteps, names):
                 if st["k"] == "expr":
                     res = trial.eval(st["e"])
                     line = "r%d %s" % (k, pyref.pretty(res))
+                elif st["k"] == "rebind":
+                    trial.arr[st["name"]] = trial.eval(st["e"])
+                    line = "w%d" % k
                 else:
                     trial.write(st["name"], st["i"], st["e"])
                     line = "w%d" % k
@@ -250,11 +261,14 @@ def build_case(rng, cid, nsteps, names):
         if pending:
             pending.pop(0)
         if st["k"] == "expr":
-            prog.append('print "r%d", %s' % (k, src(st["e"])))
+            text = src(st["e"])
+            prog.append('print "r%d", %s' % (k, text))
         else:
-            prog.append("%s[%d] = %s" % (st["name"], st["i"], src(st["e"])))
+            text = ("%s = %s" % (st["name"], src(st["e"])) if st["k"] == "rebind"
+                    else "%s[%d] = %s" % (st["name"], st["i"], src(st["e"])))
+            prog.append(text)
             prog.append('print "w%d"' % k)
-        history.append(src(st["e"]) if st["k"] == "expr" else "%s[%d] = %s" % (st["name"], st["i"], src(st["e"])))
+        history.append(text)
         if verdict != "ok":
             expect = verdict
             break
@@ -280,6 +294,62 @@ def build_case(rng, cid, nsteps, names):
     meta = {"prog": text, "doc": V.to_json(docv), "history": history, "arrays": names,
             "expect_outcome": expect, "expect_stdout": stdout}
     return Case(cid, simple_run(cid, text, [V.to_json(docv)]), meta, nontrivial)
+
+
+def build_bulk(rng, cid, big=False):
+    """loops that grow an array past the sizes where storage strategies change (12/13, 32, 256, 1024), drain it from the
+    front, refill, pop, write past the end; lengths, ends, the whole array, its sort and contains are printed"""
+    holder = rng.choice(["a", "$.list", "o.items", "t[1]"])
+    # (the extracted model needs seconds per case beyond a few hundred elements: the largest sizes are rare)
+    n = rng.choice([513, 1000, 1024, 1025]) if big else rng.choice([12, 13, 16, 17, 31, 32, 33, 64, 65, 128, 129, 255, 256, 257, 300])
+    k = rng.choice([0, 1, n // 2, n - 1, n, rng.randint(0, n)])
+    m = rng.randint(0, 40)
+    p = rng.randint(0, 12)
+    mixed = rng.random() < 0.5
+    h = holder
+    init = {"a": "a = []", "$.list": "", "o.items": "o = {items: []}", "t[1]": "t = [null, [], 7]"}[holder]
+    lst = []
+    out = []
+    sim = Ideal({h: lst})
+    fmt = lambda v: pyref.pretty(v)
+    for i in range(n):
+        lst.append(float((i * 7) % 13))
+    mid = n // 2
+    out.append("n %s %s %s %s" % (fmt(float(len(lst))), fmt(lst[0]), fmt(lst[-1]), fmt(lst[mid])))
+    ssum = 0.0
+    for i in range(k):
+        ssum += lst.pop(0)
+    out.append("k %s %s %s" % (fmt(float(len(lst))), fmt(ssum), fmt(lst[0] if lst else None)))      # [-1] of an empty array is an error
+    for i in range(m):
+        lst.append("s" + pyref.fmt_f(float(i)) if mixed else float(i * 3))
+    last = None
+    for i in range(p):
+        last = lst.pop() if lst else None
+    gap = rng.choice([0, 1, 3])
+    lst.extend([None] * gap)
+    lst.append(True if mixed else 2.5)
+    out.append("m %s %s %s" % (fmt(float(len(lst))), pyref.pretty(last) if p else "<unknown>", pyref.pretty(lst)))
+    out.append("sort %s" % pyref.pretty(sim.eval(("call", h, "sort", []))))
+    probes = [5.0, "s3", 12.0, None, 2.5, "0"]
+    out.append("c " + " ".join(fmt(sim.eval(("call", h, "contains", [("lit", x)]))) for x in probes))
+    out.append("after %s %s %s" % (fmt(float(len(lst))), fmt(lst[0]), fmt(lst[-1])))
+    prog = ["{", " " + init,
+            " for (i = 0; i < %d; i++) { %s.push(i * 7 %% 13) }" % (n, h),
+            ' print "n", %s.length(), %s[0], %s[-1], %s[%d]' % (h, h, h, h, mid),
+            " sum = 0", " for (i = 0; i < %d; i++) { sum += %s.popfirst() }" % (k, h),
+            ' print "k", %s.length(), sum, %s[0]' % (h, h),
+            " for (i = 0; i < %d; i++) { %s.push(%s) }" % (m, h, '"s" + i' if mixed else "i * 3"),
+            " for (i = 0; i < %d; i++) { last = %s.pop() }" % (p, h),
+            " %s[%s.length() + %d] = %s" % (h, h, gap, "true" if mixed else "2.5"),
+            ' print "m", %s.length(), last, %s' % (h, h),
+            ' print "sort", %s.sort()' % h,
+            ' print "c", %s' % ", ".join("%s.contains(%s)" % (h, pyref.literal(x)) for x in probes),
+            ' print "after", %s.length(), %s[0], %s[-1]' % (h, h, h), "}"]
+    text = "\n".join(prog)
+    doc = '{"list": [], "n": 1}'
+    meta = {"prog": text, "doc": doc, "history": ["bulk n=%d popfirst=%d push=%d pop=%d" % (n, k, m, p)], "arrays": [h],
+            "expect_outcome": "ok", "expect_stdout": "".join(l + "\n" for l in out)}
+    return Case(cid, simple_run(cid, text, [doc]), meta, True, ["bulk"])
 
 
 def _calls(e, n, methods):
@@ -330,6 +400,8 @@ class C15(Check):
                 names = rng.sample(all_names, rng.choice([1, 2, 2, 3, 3]))
             nsteps = rng.choice([1, 2, 3, 5, 8]) if rng.random() < 0.15 else rng.randint(6, 40)
             cases.append(build_case(rng, "h%d" % k, nsteps, names))
+        for k in range(30 if tier == "quick" else 400):
+            cases.append(build_bulk(rng, "b%d" % k, big=(k % 15 == 7)))
         return cases
 
     def oracle(self, case, impl):
